@@ -295,10 +295,11 @@ def tables_for(rows):
 
 def exotic_timestamps(rows):
     """H_dt_uniform: the timestamps of one column that parse one by one form one datetime64 column.  It
-    holds for zone-free timestamps of at most microsecond precision within the nanosecond range; a grid
-    holding any other parseable timestamp is outside the model's domain (the oracle still judges it)."""
+    holds for zone-free timestamps unless sub-microsecond stamps meet dates outside the nanosecond range; a
+    grid where that can happen is outside the model's domain (the oracle still judges it)."""
     import pandas as pd
 
+    any_ns = any_far = False
     for r in rows:
         for c in r:
             if isinstance(c, str) and c.strip()[:1].isdigit():
@@ -310,9 +311,12 @@ def exotic_timestamps(rows):
                     continue
                 if t is pd.NaT:
                     continue
-                if t.tzinfo is not None or t.nanosecond != 0 or not (1678 <= t.year <= 2261):
+                if t.tzinfo is not None:
                     return True
-    return False
+                any_ns = any_ns or t.nanosecond != 0
+                any_far = any_far or not (1678 <= t.year <= 2261)
+    # sub-microsecond stamps alone make a nanosecond column, far dates alone a microsecond column; together they do not fit
+    return any_ns and any_far
 
 
 def case_to_coq(case, obs):
